@@ -16,6 +16,7 @@ import (
 	"path/filepath"
 	"sort"
 	"strings"
+	"time"
 
 	anystore "github.com/anyproto/any-store"
 
@@ -100,8 +101,12 @@ func indexOf(l []string, s string) int {
 	return len(l)
 }
 
+// tsStep: t1 < t2 < t3 about a second apart, with low-order bytes that are NOT ordered like the timestamps (58, 228,
+// 209), so that only a comparison of the whole number orders them correctly.
+var tsStep = []int64{0, 1_000_250, 2_000_100, 3_000_017}
+
 func (v Val) ts() int64 {
-	return baseTs + int64(v.T)*1_000_000 + int64(indexOf(devNames, v.Dev)*10+indexOf(keyNames, v.Key))
+	return baseTs + tsStep[v.T] + int64(indexOf(devNames, v.Dev)*10+indexOf(keyNames, v.Key))
 }
 
 type world struct {
@@ -288,9 +293,10 @@ type kvstore struct {
 	hs headstorage.HeadStorage
 }
 
-// wipe empties the collections of the given store ids and removes their head entries (one open database is
-// reused by all cases of a process).
+// wipe empties the collections of the given store ids (one open database is reused by all cases of a process; the
+// head entry of the id is rewritten by keyvaluestorage.New).
 func (w *world) wipe(ids ...string) {
+	defer lap("wipe", time.Now())
 	tx, err := w.db.WriteTx(ctx)
 	if err != nil {
 		panic(err)
@@ -306,7 +312,6 @@ func (w *world) wipe(ids ...string) {
 		if _, err = coll.Find(nil).Delete(tx.Context()); err != nil {
 			panic(err)
 		}
-		_ = w.hs.DeleteEntry(tx.Context(), id)
 	}
 	if err = tx.Commit(); err != nil {
 		panic(err)
@@ -315,6 +320,7 @@ func (w *world) wipe(ids ...string) {
 
 // open builds a store the way keyValueService.Init does (Prepare included), on db/hs (default: the world's).
 func (w *world) open(id string, db anystore.DB, hs headstorage.HeadStorage) *kvstore {
+	defer lap("open", time.Now())
 	if db == nil {
 		db, hs = w.db, w.hs
 	}
@@ -370,6 +376,7 @@ func sortEls(e []ldiff.Element) []ldiff.Element {
 }
 
 func (s *kvstore) observe(keys []string) (o obs, err error) {
+	defer lap("observe", time.Now())
 	err = s.st.Iterate(ctx, func(_ keyvaluestorage.Decryptor, key string, values []innerstorage.KeyValue) (bool, error) {
 		o.Groups = append(o.Groups, key)
 		for _, kv := range values {
@@ -542,13 +549,6 @@ func (w *world) judge(o obs, want []doc, keys []string) (what, detail string) {
 	if got := sortedDocs(o.Iter); !docsEqual(got, want) {
 		return "iterate-contents", fmt.Sprintf("Iterate delivers %s, reference %s", w.docsStr(got), w.docsStr(want))
 	}
-	seen := map[string]bool{}
-	for _, g := range o.Groups {
-		if seen[g] {
-			return "iterate-groups", fmt.Sprintf("Iterate delivers key %q in more than one group: %v", g, o.Groups)
-		}
-		seen[g] = true
-	}
 	for _, k := range keys {
 		var wk []doc
 		for _, d := range want {
@@ -575,6 +575,7 @@ func (w *world) judge(o obs, want []doc, keys []string) (what, detail string) {
 
 // reopened builds a second inner storage over the same collection (what a restart does) and returns its index.
 func (s *kvstore) reopened(w *world) (els []ldiff.Element, hash string, headAfter []string, err error) {
+	defer lap("reopen", time.Now())
 	in, err := innerstorage.New(ctx, s.id, s.hs, s.db)
 	if err != nil {
 		return nil, "", nil, err
